@@ -15,6 +15,8 @@ import (
 	"math/big"
 
 	"gitlab.com/aquachain/aquachain/common"
+	"gitlab.com/aquachain/aquachain/common/log"
+	"gitlab.com/aquachain/aquachain/consensus/aquahash/ethashdag"
 	"gitlab.com/aquachain/aquachain/core/types"
 	"gitlab.com/aquachain/aquachain/crypto"
 	"gitlab.com/aquachain/aquachain/crypto/sha3"
@@ -49,11 +51,15 @@ func c14IDKey(password, salt []byte, time, memory uint32, threads uint8, keyLen 
 	if !vs.Symbolic() {
 		return argon2.IDKey(password, salt, time, memory, threads, keyLen)
 	}
+	if len(password) == 40 {
+		ethashdag.VerifC14Tick() // a proof-of-work evaluation (40-byte seed), not a header hash
+	}
 	name := "argon2id"
 	for _, p := range []uint32{time, memory, uint32(threads)} {
 		name += "_" + c14itoa(p)
 	}
-	return vs.UF(name, int(keyLen), password, salt)
+	// ".nat": big.Int.SetBytes of the whole result is an Int-valued companion function (engine/big.go)
+	return vs.UF(name+".nat", int(keyLen), password, salt)
 }
 
 func c14itoa(v uint32) string {
@@ -129,14 +135,20 @@ func c14RlpEncode(w io.Writer, val interface{}) error {
 	return err
 }
 
-// c14Hashimoto: ethash digest/result as uninterpreted functions of (seal hash, nonce).
-func c14Hashimoto(hash []byte, nonce uint64) (digest, result []byte) {
-	n := make([]byte, 8)
-	for i := 0; i < 8; i++ {
-		n[i] = byte(nonce >> (8 * uint(i)))
-	}
-	return vs.UF("hashimoto-digest", 32, hash, n), vs.UF("hashimoto-result", 32, hash, n)
-}
+// c14Logger: redirect target of log.New (the miner logs through a Logger value).
+type c14Logger struct{}
+
+func (c14Logger) New(ctx ...interface{}) log.LoggerI   { return c14Logger{} }
+func (c14Logger) GetHandler() log.Handler              { return nil }
+func (c14Logger) SetHandler(h log.Handler)             {}
+func (c14Logger) Trace(msg string, ctx ...interface{}) {}
+func (c14Logger) Debug(msg string, ctx ...interface{}) {}
+func (c14Logger) Info(msg string, ctx ...interface{})  {}
+func (c14Logger) Warn(msg string, ctx ...interface{})  {}
+func (c14Logger) Error(msg string, ctx ...interface{}) {}
+func (c14Logger) Crit(msg string, ctx ...interface{})  {}
+
+func c14NewLogger(ctx ...interface{}) log.LoggerI { return c14Logger{} }
 
 // ---------------------------------------------------------------------------
 // specification side
@@ -275,6 +287,14 @@ func VerifC14_HeaderHash() {
 	gotNN := h.HashNoNonce()
 	vs.Assert(bytes.Equal(gotNN[:], wantNN), "HashNoNonce: keccak256 (argon2id-16K for version 3) of the seal-free field list")
 
+	if v != 0 {
+		// the block wrapper: same hash as its header; MinerHash is the version's function of seal hash and nonce
+		b := types.NewBlockWithHeader(h)
+		vs.Assert(b.Hash() == h.Hash() && b.HashNoNonce() == gotNN, "Block.Hash / Block.HashNoNonce are the header's")
+		mh := b.MinerHash()
+		vs.Assert(bytes.Equal(mh[:], c14HeaderHash(v, c14Seed(gotNN, h.Nonce))), "MinerHash: the version's function of seal hash and little-endian nonce")
+	}
+
 	nv2 := 1 + vs.Choice("setversion", 4)
 	h2 := types.CopyHeader(h)
 	got2 := h2.SetVersion(byte(nv2))
@@ -300,4 +320,76 @@ func VerifC14_BlockVersion() {
 	}
 	vs.Observe("version", got)
 	vs.Assert(got == want, "algorithm version follows the fork schedule")
+}
+
+// VerifC14_SealEthash: version 1: accepted iff difficulty > 0, the ethash
+// verification is available, the mix digest equals the ethash digest and
+// result * difficulty <= 2^256 (digest/result uninterpreted).
+func VerifC14_SealEthash() {
+	header := c14Header(1)
+	vs.Assume(header.Number.Cmp(big.NewInt(2048*30000)) < 0)
+	engine := &Aquahash{config: &Config{PowMode: ModeNormal}}
+	if vs.Choice("dag", 2) == 1 {
+		engine.ethashdag = new(ethashdag.EthashDAG) // else: created on demand (ethashdag.New is a no-op here)
+	}
+	ethashdag.VerifC14EthashUnavailable = vs.Bool("ethash_unavailable")
+	var err error
+	vs.Assert(!vs.NoPanic(func() { err = engine.VerifySeal(nil, header) }), "VerifySeal panicked")
+	digest, result := ethashdag.VerifC14Hashimoto(header.HashNoNonce().Bytes(), header.Nonce.Uint64())
+	want := header.Difficulty.Sign() > 0 && !ethashdag.VerifC14EthashUnavailable &&
+		bytes.Equal(header.MixDigest[:], digest) && c14Meets(result, header.Difficulty)
+	if err == nil {
+		vs.Reach("accept")
+	} else {
+		vs.Reach("reject")
+	}
+	vs.Assert((err == nil) == want, "accepted iff difficulty positive, mix digest is the ethash digest and result*difficulty <= 2^256")
+}
+
+// VerifC14_Mine: the miner's nonce loop, bounded to a few consecutive nonces
+// from an arbitrary start: whatever it returns passes VerifySeal and differs
+// from the work only in nonce and mix digest; if it gives up, none of the
+// nonces it tried meets the target.  Precondition (established by Finalize and
+// Prepare): header.Version is the version mined with, difficulty > 0.
+func VerifC14_Mine() {
+	v := 1 + vs.Choice("version", 4)
+	header := c14Header(v)
+	header.MixDigest, header.Nonce = common.Hash{}, types.BlockNonce{}
+	vs.Assume(header.Difficulty.Sign() > 0)
+	vs.Assume(header.Number.Cmp(big.NewInt(2048*30000)) < 0)
+	engine := &Aquahash{config: &Config{PowMode: ModeNormal}, ethashdag: new(ethashdag.EthashDAG)}
+	block := types.NewBlockWithHeader(header)
+	start := vs.U64("startnonce")
+	tries := vs.Param("nonces")
+	abort, found := make(chan struct{}, 1), make(chan *types.Block, 1)
+
+	// the abort token appears during evaluation number tries+1, so the first
+	// `tries` nonces are processed completely
+	ethashdag.VerifC14Abort, ethashdag.VerifC14Budget = abort, tries+1
+	engine.mine(params.HeaderVersion(v), block, 0, start, abort, found)
+	ethashdag.VerifC14Abort = nil
+
+	sealHash := header.HashNoNonce()
+	pow := func(nonce uint64) (digest, result []byte) {
+		if v == 1 {
+			return ethashdag.VerifC14Hashimoto(sealHash[:], nonce)
+		}
+		return make([]byte, 32), c14PowHash(v, c14Seed(sealHash, types.EncodeNonce(nonce)))
+	}
+	if len(found) == 0 {
+		vs.Reach("exhausted")
+		for i := 0; i < tries; i++ {
+			_, result := pow(start + uint64(i))
+			vs.Assert(!c14Meets(result, header.Difficulty), "miner skipped a nonce that meets the target")
+		}
+		return
+	}
+	vs.Reach("found")
+	sealed := (<-found).Header()
+	vs.Assert(engine.VerifySeal(nil, sealed) == nil, "a seal returned by the miner passes VerifySeal")
+	vs.Assert(sealed.Version == params.HeaderVersion(v), "sealed header carries the version mined with")
+	vs.Assert(sealed.HashNoNonce() == sealHash, "sealing changes nothing but nonce and mix digest")
+	vs.Assert(sealed.Nonce.Uint64()-start <= uint64(tries), "nonce is one of those tried")
+	digest, _ := pow(sealed.Nonce.Uint64())
+	vs.Assert(bytes.Equal(sealed.MixDigest[:], digest), "mix digest is the one of the winning nonce")
 }
